@@ -156,7 +156,7 @@ def _selftests(binary, wd, casefile):
     rejected as an expectation mismatch."""
     cases = vf.jsonl_read(casefile)
     pick = [c for c in cases if all(not s["cyclic"] for s in c["steps"]) and not c["origin"]["cyclic"]
-            and any(s["edit"]["op"] in ("ChangeFieldType", "RemoveDecl", "RenamePackage", "BreakFile") for s in c["steps"])][:40]
+            and any(s["edit"]["op"] in ("ChangeFieldType", "RemoveDecl", "RenamePackage", "BreakFile") for s in c["steps"])][:24]
     if not pick:
         raise vf.MachineryError("binding self-test: no suitable case")
     f = os.path.join(wd, "selftest.jsonl")
@@ -168,7 +168,7 @@ def _selftests(binary, wd, casefile):
     if not any(m["class"].startswith("stale:") for m in bad):
         raise vf.MachineryError("binding self-test failed: replay without eviction was not rejected")
     res = {"no_evict_rejected": len(bad), "of_cases": len(pick)}
-    multi = [c for c in cases if any(len(s["changed"]) > 1 for s in c["steps"]) and all(not s["cyclic"] for s in c["steps"])][:40]
+    multi = [c for c in cases if any(len(s["changed"]) > 1 for s in c["steps"]) and all(not s["cyclic"] for s in c["steps"])][:24]
     if multi:
         vf.jsonl_write(f, multi)
         bad, _ = _drive(binary, f, ["-workers", "4", "-pars", "1", "-drop-changed"])
@@ -220,8 +220,8 @@ def _plan(tier):
                               reqs=("present", "a", "all"), runs=("TRUE", "FALSE"), view="full", exportat="end", **rich), 250, 26, None),
         ]
     return [
-        ("bfs2", _cfg(maxlen=2, inits=("hole", "twins"), reqs=("present",), view="trans", allowself=False, decls="ABE",
-                      refnames=("A", "Hb"), slots=("f1",), defects=("unknown",)), None, None, 420),
+        ("bfs2", _cfg(maxlen=2, inits=("hole", "twins"), reqs=("present",), view="trans", allowself=False, decls="AB",
+                      refnames=("A",), slots=("f1",), defects=("unknown",), maximports=1), None, None, 300),
         ("sim", _cfg(files="abcd", maxlen=12, inits=("chain", "public", "cycle", "late"), reqs=("present", "a"),
                      runs=("TRUE", "FALSE"), view="full", exportat="end", **rich), 14, 14, None),
     ]
